@@ -281,4 +281,7 @@ def run(tier, seed):
         C.phase_proofs(res, PROP, THEOREMS)
     nsc = 128 if tier == "quick" else 2400
     phase_e2e(res, [seed * 100000 + i for i in range(nsc)])
+    if res.broken and not res.violations:
+        phase_e2e(res, [seed * 100000 + 50000 + i for i in range(256)])
+        res.extra["search"] = "256 extra end-to-end partial-commit histories against the ghost oracle"
     return res.finish()
